@@ -118,6 +118,12 @@ class Obj(object):
         self.fields = dict(fields)
 
 
+class PyConst(object):
+    """a concrete Python constant bound to a parameter by a contract variant (e.g. c = 1j)"""
+    def __init__(self, value):
+        self.value = value
+
+
 class Unbound(object):
     def __init__(self, why):
         self.why = why
@@ -708,6 +714,13 @@ def compare(op, a, b):
             return z3.BoolVal(res)
         if isinstance(op, (ast.IsNot, ast.NotEq)):
             return z3.BoolVal(not res)
+    if isinstance(a, PyConst) or isinstance(b, PyConst):
+        # comparison with a concrete Python constant (e.g. the complex unit 1j): decided concretely
+        av = a.value if isinstance(a, PyConst) else (z3.simplify(to_z3(a)).as_long() if z3.is_int_value(z3.simplify(to_z3(a))) else None)
+        bv = b.value if isinstance(b, PyConst) else (z3.simplify(to_z3(b)).as_long() if z3.is_int_value(z3.simplify(to_z3(b))) else None)
+        if av is None or bv is None or not isinstance(op, (ast.Eq, ast.NotEq)):
+            raise OutOfFragment('comparison of a Python constant with a symbolic value')
+        return z3.BoolVal((av == bv) if isinstance(op, ast.Eq) else (av != bv))
     a, b = to_z3(a), to_z3(b)
     if z3.is_bool(a) != z3.is_bool(b):
         a, b = as_num(a), as_num(b)
